@@ -67,6 +67,8 @@ type DcpEnv struct {
 	Started bool
 	Done    bool // Start() returned
 	Err     error
+	// LateSaveAfterInflight is set by a scenario when the closing save began only after an in-flight save had completed
+	LateSaveAfterInflight bool
 }
 
 type DcpOpts struct {
@@ -142,6 +144,10 @@ func (e *DcpEnv) StoredSeq(vb uint16) (uint64, bool) {
 	}
 	return d.Checkpoint.SeqNo, true
 }
+
+// savesAfterCallSkipped: placeholder for the attribution of the C05 race in lifecycle scenarios (the closing
+// save found nothing dirty because a concurrent successful save had just wiped the marks).
+func (e *DcpEnv) savesAfterCallSkipped() bool { return e.LateSaveAfterInflight }
 
 func (e *DcpEnv) bus() EventBus.Bus { return dcp.VerifBus(e.D) }
 
